@@ -1,0 +1,34 @@
+//go:build verif
+
+package value
+
+// Verification hooks (build tag verif). Observation only.
+
+// VerifFloat converts a value to float64; ok is false if not a float.
+func (t Type) VerifFloat() (float64, bool) {
+	if t.typ != floatT {
+		return 0, false
+	}
+	return t.f(), true
+}
+
+// VerifKind names the dynamic type of the value.
+func (t Type) VerifKind() string {
+	switch t.typ {
+	case nilT:
+		return "nil"
+	case intT:
+		return "int"
+	case floatT:
+		return "float"
+	case stringT:
+		return "str"
+	case arrayT:
+		return "arr"
+	case boolT:
+		return "bool"
+	case functionT:
+		return "fun"
+	}
+	return "invalid"
+}
